@@ -70,9 +70,14 @@ def table_lock_ownership():
                         ast.unparse(a.value.func).split(".")[-1] in ("Lock", "RLock") and not a.value.args:
                     lock_attrs += [t.attr for t in a.targets if isinstance(t, ast.Attribute)]
 
+    # the module-level singleton: `<name> = _WrapNumbers()` (whatever it is called)
+    singletons = {t.id for st_ in tree.body if isinstance(st_, ast.Assign) and isinstance(st_.value, ast.Call)
+                  and isinstance(st_.value.func, ast.Name) and st_.value.func.id == "_WrapNumbers"
+                  for t in st_.targets if isinstance(t, ast.Name)}
+
     def is_the_lock(expr):
-        return len(lock_attrs) == 1 and isinstance(expr, ast.Attribute) and expr.attr == lock_attrs[0] and \
-            isinstance(expr.value, ast.Name) and expr.value.id in ("self", "_wn")
+        return len(lock_attrs) == 1 and len(singletons) == 1 and isinstance(expr, ast.Attribute) and \
+            expr.attr == lock_attrs[0] and isinstance(expr.value, ast.Name) and expr.value.id in ({"self"} | singletons)
 
     def holds_lock(body):
         """the whole body runs under THE lock: `with <lock>: ...`, or `[alias = <lock>;] X.acquire(); try: ... finally:
@@ -142,8 +147,10 @@ for _kind, _qual in (("disk", "disk_io_counters"), ("net", "net_io_counters")):
     REGISTRY.add(Contract(
         "C10", INIT, _qual, setup=_c09.setup_front(_kind), env=ENV, configs=_c09.FRONT_CFGS,
         ensures=[
-            "implies(k > 0 and nowrap, log == [('wrap', cache_name, True)])",       # once, own cache name, raw per-device dict
-            "implies(k == 0 or not nowrap, len(log) == 0)",                          # nowrap=False: raw values, filter not consulted
+            # once, own cache name, raw per-device dict - an empty one too ("a device that disappears and later reappears
+            # starts afresh": the history has to see the snapshot in which it was gone)
+            "implies(nowrap, log == [('wrap', cache_name, True)])",
+            "implies(not nowrap, len(log) == 0)",                                    # nowrap=False: raw values, filter not consulted
             "implies(k > 0 and not per, forall(range(width), lambda i: result[i] == sum([raw[d][i] for d in raw])))",
             "implies(k > 0 and per, set(result) == set(raw) and "
             "forall(list(raw), lambda d: forall(range(width), lambda i: result[d][i] == raw[d][i])))",
